@@ -40,6 +40,26 @@ static const char *kZpeStall = "C02-zpe-recv-stall";
 
 static bool is_zpe(int fr) { return fr == FZpe || fr == FZpeR; }
 
+// structure of a message taken from a queue (mpt_message_get of the unchanged code): one part when the bytes are contiguous in the
+// storage, otherwise exactly one continuation at the storage base; no empty parts (except the single part of an empty message).
+// Returns 0 or a description; never throws (used inside the dispatch callback).
+static const char *message_structure(const message &m, const queue *q, size_t total, bool have_total) {
+  const uint8_t *base = (const uint8_t *)q->base, *end = base + q->max;
+  if (m.clen > 1) return "more than one continuation";
+  const uint8_t *p = (const uint8_t *)m.base;
+  if (!m.clen) {
+    if (have_total && m.used != total) return "single part does not hold the whole message";
+    if (m.used && (p < base || p + m.used > end)) return "part outside the queue storage";
+    return 0;
+  }
+  if (!m.cont) return "continuation count 1 without continuation";
+  if (!m.used) return "empty first part in front of a continuation";
+  if (!m.cont->iov_len) return "zero-length continuation (the message does not cross the end of the storage)";
+  if (p < base || p + m.used != end) return "first part of a two-part message does not end at the end of the storage";
+  if ((const uint8_t *)m.cont->iov_base != base) return "continuation does not start at the storage base";
+  if (have_total && m.used + m.cont->iov_len != total) return "parts do not add up to the message length";
+  return 0;
+}
 // what the receiver hands over for a sent message: the command decoder puts a message header in front of the text
 static std::vector<uint8_t> expect_recv(int fr, const std::vector<uint8_t> &m) {
   std::vector<uint8_t> w;
@@ -530,6 +550,13 @@ struct H {
     } else g = mpt_message_get(rd(), st.data.pos, st.data.msg, &m, &vec);
     VP_CHECK(c, g >= 0, "message-get", "mpt_message_get(pos %zu, len %zd) = %d on queue of %zu bytes", st.data.pos, st.data.msg, g, rq->len);
     if (g > 0) c.label("receiver:message-two-segments");
+    {
+      const char *bad = message_structure(m, rd(), (size_t)st.data.msg, true);
+      VP_CHECK(c, !bad && (g > 0) == (m.clen == 1), "message-structure", "%s: message of %zd bytes at queue position %zu (queue off %zu len %zu max %zu): %s (result %d, first part %zu bytes, %zu continuation(s)%s)",
+               kName[fr], st.data.msg, st.data.pos, rq->off, rq->len, rq->max, bad ? bad : "result does not match the continuation count", g, m.used, m.clen,
+               m.clen && m.cont ? (", continuation " + std::to_string(m.cont->iov_len) + " bytes").c_str() : "");
+      if (m.clen == 0 && st.data.msg > 0 && (const uint8_t *)m.base + m.used == (const uint8_t *)rq->base + rq->max && wrapped(rd())) c.label("message:ends-at-storage-end-of-wrapped-queue");
+    }
     std::vector<uint8_t> got(st.data.msg + 1);
     size_t n = mpt_message_read(&m, st.data.msg, got.data());
     got.resize(st.data.msg);
@@ -788,9 +815,18 @@ struct Collect {
   bool flags_mode = false;  // the handler answers with drawn event flags / error codes
   bool called = false;
   int answer = 0;
+  const queue *rdq = 0;         // the receiver stream's input queue
+  const char *structure = 0;    // first structural complaint about a delivered message
+  size_t structure_at = 0;
+  size_t ends_at_end = 0;
 };
 static int on_message(void *arg, const message *msg) {
   Collect *k = (Collect *)arg;  // library frames above: no throwing here
+  if (k->rdq && !k->structure) {
+    k->structure = message_structure(*msg, k->rdq, 0, false);
+    k->structure_at = k->got.size();
+    if (!msg->clen && msg->used && (const uint8_t *)msg->base + msg->used == (const uint8_t *)k->rdq->base + k->rdq->max && k->rdq->off + k->rdq->len > k->rdq->max) ++k->ends_at_end;
+  }
   message m = *msg;
   size_t n = mpt_message_length(&m);
   std::vector<uint8_t> b(n + 1);
@@ -837,9 +873,12 @@ static void run_streams(Ctx &c, int fr, bool small, bool flags_mode) {
   bool open = false, cut_inside = false;
   Collect col{&c};
   col.flags_mode = flags_mode;
+  col.rdq = &rx->_rd;
   size_t checked = 0;
   auto compare = [&]() {
     VP_CHECK(c, !col.bad, "message-get", "message handed to the dispatch callback could not be read completely");
+    VP_CHECK(c, !col.structure, "message-structure", "%s: message #%zu handed to the dispatch callback: %s", kName[fr], col.structure_at, col.structure ? col.structure : "");
+    if (col.ends_at_end) { c.count("message:ends-at-storage-end-of-wrapped-queue", col.ends_at_end); col.ends_at_end = 0; }
     for (; checked < col.got.size(); checked++) {
       VP_CHECK(c, checked < frames_forwarded, "extra-message", "%s: stream delivered message #%zu, only %zu complete frames were forwarded", kName[fr], checked, frames_forwarded);
       const std::vector<uint8_t> &g = col.got[checked], w = expect_recv(fr, sent[checked]);
